@@ -45,6 +45,7 @@ def hexv(v):
 def search(facts):
     """returns a list of findings: dict(key, const, where, value, expected, targets[], kind, detail)"""
     uapi = {u["name"]: u["val"] for u in facts.get("uapi", [])}
+    uapi_all = {u["name"]: u["val"] for u in facts.get("uapiAll", [])}
     groups = {}
     stats = {"evaluations": 0, "nontrivial": 0, "samples": []}
 
@@ -81,6 +82,12 @@ def search(facts):
                 add("const", "internal/unix.%s" % u, ux.get(u), uapi.get(u), name, "kernel header value of %s" % u)
             if rt.get(r) != uapi.get(u):
                 add("const", "seccomp.%s" % r, rt.get(r), uapi.get(u), name, "kernel header value of %s" % u)
+        # every constant of internal/unix that bears the name of a kernel macro (theorem same_named_constants_equal_uapi)
+        for u, v in sorted(ux.items()):
+            if u in uapi_all:
+                tick(name, "internal/unix.%s (same-named macro)" % u, v, uapi_all[u])
+                if v != uapi_all[u]:
+                    add("const", "internal/unix.%s" % u, v, uapi_all[u], name, "kernel header value of the macro %s" % u)
         want = MIPS_ENOSYS if (is_linux(t) and t["goarch"] in MIPS) else uapi.get("ENOSYS")
         tick(name, "internal/unix.ENOSYS", ux.get("ENOSYS"), want)
         tick(name, "seccomp.errnoENOSYS", rt.get("errnoENOSYS"), want)
